@@ -44,6 +44,7 @@ OPEN_API_3_0_UNSUPPORTED = [
     "dependentRequired",
     "unevaluatedProperties",
     "additionalItems",
+    "propertyNames",
 ]
 
 
